@@ -568,8 +568,19 @@ def cstr(s):
     return '"' + s.replace('"', '""') + '"'
 
 
+def cqx(x):
+    """exact rational literal; non-finite bounds (log(0) for a constant coordinate) become sentinels,
+    identically for a component and for the composite that concatenates it"""
+    x = float(x)
+    if x != x:
+        return f"({7 * 10 ** 401} # 1)"
+    if x in (float("inf"), float("-inf")):
+        return f"({'-' if x < 0 else ''}{10 ** 400} # 1)"
+    return C.cq(x)
+
+
 def cbounds(bs):
-    return "[" + "; ".join(f"({C.cq(float(lo))}, {C.cq(float(hi))})" for lo, hi in bs) + "]"
+    return "[" + "; ".join(f"({cqx(lo)}, {cqx(hi)})" for lo, hi in bs) + "]"
 
 
 def ccomp(obj):
@@ -740,9 +751,11 @@ def run(rep: C.Report, tier: str) -> int:
         rep.obligation(False)
         rep.violation("C10/correspondence-run", "a goal file could not be processed",
                       {"theorem_or_correspondence": "coq/gen/C10/goals_*.v", "log": b[-1500:]}, False)
+    msuspicious = {}
     for gid, log in failed:
         m = meta[gid]
-        suspicious.setdefault(m["case"], []).append(f"goal {gid} ({m}) not proved")
+        tgt = msuspicious if m["kind"] in ("mbuild", "magv", "mcall", "mgrad") else suspicious
+        tgt.setdefault(m["case"], []).append(f"goal {gid} ({m}) not proved")
     # exact bookkeeping
     files = []
     for kind, typ, chk in (("base", "list (base * nat * nat * nat * list string)", "check_base"),
@@ -768,7 +781,7 @@ def run(rep: C.Report, tier: str) -> int:
                            "failing_indices": res[0][:10]}, True)
     rep.coverage["goals"] = len(goals)
     rep.coverage["goals_failed"] = len(failed)
-    rep.coverage["correspondence_disagreements"] = len(suspicious)
+    rep.coverage["correspondence_disagreements"] = len(suspicious) + len(msuspicious)
 
     # ---- the property on the implementation: on every disagreement (search) and on every case ([R])
     reported = set()
@@ -790,11 +803,18 @@ def run(rep: C.Report, tier: str) -> int:
                           {"theorem_or_correspondence": "coq-interval goal(s) of coq/gen/C10", "case": describe(case),
                            "reasons": suspicious[k][:6]}, False)
     for mc, mo in mean_cases:
-        for key, what, det in mean_oracle(mc, mo):
+        mbad = mean_oracle(mc, mo)
+        mdesc = dict(describe(mc), mean=mc["mean"], mtheta=[str(t) for t in mc["mtheta"]])
+        for key, what, det in mbad:
             if key not in reported:
                 reported.add(key)
-                rep.violation(key, f"{mc['mean']} mean: {what}",
-                              {"case": dict(describe(mc), mean=mc["mean"], mtheta=[str(t) for t in mc["mtheta"]]), "detail": det}, True)
+                rep.violation(key, f"{mc['mean']} mean: {what}", {"case": mdesc, "detail": det}, True)
+        if mc["id"] in msuspicious and not mbad:
+            rep.violation("C10/mean-correspondence",
+                          "mean function and model disagree, but the property was not seen to fail on this input: "
+                          + "; ".join(msuspicious[mc["id"]][:2]),
+                          {"theorem_or_correspondence": "coq-interval goal(s) of coq/gen/C10 (means)", "case": mdesc,
+                           "reasons": msuspicious[mc["id"]][:6]}, False)
     return finish(rep)
 
 
